@@ -3480,6 +3480,13 @@ async def _helper_rename_folder(mbox: Mailbox, new_name: str) -> None:
         "SELECT name,id FROM mailboxes WHERE name=? OR name LIKE ?",
         (old_name, f"{old_name}/%"),
     ):
+        # `_` and `%` in the mailbox name are wildcards to LIKE: keep only
+        # this mailbox and what really lies below it.
+        #
+        if mbox_old_name != old_name and not mbox_old_name.startswith(
+            old_name + "/"
+        ):
+            continue
         mbox_new_name = new_name + mbox_old_name[len(old_name) :]
         to_change[mbox_old_name] = (mbox_new_name, mbox_id)
 
